@@ -231,6 +231,7 @@ Step(st, ev) ==
     [] ev.a = "CheckTx" -> Ok(st)      \* admission never changes committed state (judged by AdmitIdeal)
     [] ev.a = "EndBlock" -> EndBlock(st, ev)
     [] ev.a = "Commit" -> Commit(st, ev)
+    [] ev.a = "ListQueries" -> Ok(st)  \* queries never modify state
     [] ev.a = "Crash" -> Ok(st)        \* nothing runs; what Restart finds is decided by the durable state
     [] ev.a = "Restart" -> Ok(st)      \* the trace / MC specs substitute the last committed state
     [] OTHER -> Fail(st)
